@@ -19,6 +19,23 @@ def run(case, lang, seed, max_leaves):
     saved = utils.random
     utils.random = oracle
     events = []
+
+    def irrelevant(q):
+        res, excs, leaves, saw_none = {}, [], 0, False
+
+        def call2():
+            return tu.find_irrelevant_type(T.build(q), pool(T, case), T.factory)
+        for _, out in oracle.run_all(call2):
+            leaves += 1
+            if isinstance(out, Exception):
+                excs.append(type(out).__name__ + ": " + str(out)[:60])
+            elif out is None:
+                saw_none = True
+            else:
+                t = hlib.ser(out)
+                res[json.dumps(t, sort_keys=True)] = t
+        events.append({"kind": "find_irrelevant", "T": q, "include_self": False, "concrete_only": False, "res": list(res.values()),
+                       "self_in": "none", "saw_none": saw_none, "exc": sorted(set(excs))[:3], "leaves": leaves})
     try:
         for qi in case["queries"]:
             q = case["u"][qi - 1]
@@ -38,20 +55,10 @@ def run(case, lang, seed, max_leaves):
                 events.append({"kind": "find_subtypes", "T": q, "include_self": inc, "concrete_only": conc, "res": list(res.values()),
                                "self_in": "mixed" if len(selfs) > 1 else ("all" if selfs == {True} else ("none" if selfs == {False} else "n/a")),
                                "saw_none": False, "exc": sorted(set(excs))[:3], "leaves": leaves})
-            res, excs, leaves, saw_none = {}, [], 0, False
-            def call2():
-                return tu.find_irrelevant_type(T.build(q), pool(T, case), T.factory)
-            for _, out in oracle.run_all(call2):
-                leaves += 1
-                if isinstance(out, Exception):
-                    excs.append(type(out).__name__ + ": " + str(out)[:60])
-                elif out is None:
-                    saw_none = True
-                else:
-                    t = hlib.ser(out)
-                    res[json.dumps(t, sort_keys=True)] = t
-            events.append({"kind": "find_irrelevant", "T": q, "include_self": False, "concrete_only": False, "res": list(res.values()),
-                           "self_in": "none", "saw_none": saw_none, "exc": sorted(set(excs))[:3], "leaves": leaves})
+            irrelevant(q)
+        # type variables as queries (read as their bound, transitively): X : q and A : X : q
+        for q in case.get("vqueries", []):
+            irrelevant(q)
     finally:
         utils.random = saved
     return {"id": json.dumps(case["id"], sort_keys=True) + "/" + lang, "lang": lang, "ct": case["ct"], "events": events}
